@@ -191,3 +191,27 @@ Definition attr_read (tail : bs) : bs :=
   end.
 Definition x_onx : bs := [120; 32; 111; 110; 120; 61; 49].
 
+
+
+(* ------------------------------------------------------------------------------------------
+   Stored (second-order) text.  Request-controlled text also arrives inside BINARY answers (the attestation
+   certificate and key handle of a U2F registration, the attested credential data of a WebAuthn registration): one
+   request stores what the library's parser (decode: an arbitrary function) makes of it in a user profile, a LATER
+   request renders a page that shows stored fields.  store_of is the store after a history of such requests;
+   stored_page shows every stored text in a template field of context c behind the template text `row`
+   (cmd/keymasterd profileHandler: one table row per registered token, `{{.DeviceData}}` / `value="{{.Name}}"`).
+   stored_page_raw is NOT the code: the variant whose field is typed template.HTML (seed C18-I). *)
+Definition store := list bs.
+Fixpoint store_of (decode : bs -> list bs) (history : list bs) : store :=
+  match history with [] => [] | r :: h => store_of decode h ++ decode r end.
+Definition stored_page (row : bs) (c : fctx) (st : store) (tail : bs) : list seg :=
+  page (map (fun s => (row, PField c s)) st) tail.
+Definition stored_page_raw (row : bs) (st : store) (tail : bs) : list seg :=
+  flat_map (fun s => [Trusted row; Raw s]) st ++ [Trusted tail].
+
+(* A handler may take a field apart and render a PART of it (the local part of an e-mail style user name, a
+   component of a URL, ...): `part` is an arbitrary function in the theorems; before_at is the concrete instance
+   "text in front of the first @" of the refutation (seed C18-J). *)
+Fixpoint before_at (s : bs) : bs :=
+  match s with [] => [] | c :: r => if c =? 64 then [] else c :: before_at r end.
+Definition x_onx_mail : bs := x_onx ++ [64; 101; 46; 99].
